@@ -38,7 +38,7 @@ BUDGET_S = {'quick': 100, 'thorough': 1500}
 
 def bounds(tier):
     return {'z3_goals': 'all templates (see goal_family) ' + ('' if tier == 'thorough' else '; depth-2 propositional combinations sampled 1500'),
-            'sympy_goals': '%d seeded + fixed list' % (600 if tier == 'quick' else 6000)}
+            'sympy_goals': '%d seeded + fixed list + systematic interval end-point family (3 intervals x closed/open x 5 relations x 21 polynomials) + ground nat/int subtraction goals' % (600 if tier == 'quick' else 6000)}
 
 
 def setup(tier, seed):
@@ -235,6 +235,49 @@ def sympy_goals(rnd, n):
     return goals
 
 
+def sympy_endpoint_goals():
+    """Interval-premise goals whose truth is decided at or next to an end point: for each closed/open interval [l,h],
+    x ~ c and (x - r1) * (r2 - x) ~ 0 and (x - r) ^ 2 ~ 0 for c, r among l, h, the midpoint and points just outside,
+    ~ in > >= < <= and their equational forms."""
+    from kernel.type import RealType, TFun, TConst, BoolType
+    from kernel.term import Var, Eq, Not, Number, Const, Nat
+    from kernel import term as T
+    x = Var('x', RealType)
+    N = lambda v: Number(RealType, v)
+    mk = lambda nm, l, h: Const(nm, TFun(RealType, RealType, TConst('set', RealType)))(N(l), N(h))
+    memr = lambda e, s: Const('member', TFun(RealType, TConst('set', RealType), BoolType))(e, s)
+    rels = [lambda a, b: a > b, lambda a, b: a >= b, lambda a, b: a < b, lambda a, b: a <= b, lambda a, b: Not(Eq(a, b))]
+    goals = []
+    for (l, h) in ((0, 1), (-1, 1), (1, 3)):
+        for nm in ('real_closed_interval', 'real_open_interval'):
+            prem = memr(x, mk(nm, l, h))
+            pts = [l, h, Fraction(l + h, 2), l - 1, h + 1]
+            for c in pts:
+                for r in rels:
+                    goals.append(([prem], r(x, N(c))))
+            for r1 in (l, h, l - 1):
+                for r2 in (h, l, h + 1):
+                    for r in rels:
+                        goals.append(([prem], r((x - N(r1)) * (N(r2) - x), N(0))))
+            for r0 in (l, h, Fraction(l + h, 2)):
+                for r in rels:
+                    goals.append(([prem], r(T.nat_power(RealType)(x - N(r0), Nat(2)), N(0))))
+            for r in rels:
+                goals.append(([prem], r(N(h * h) - x * x, N(0))))
+    # ground goals over nat / int numerals: natural subtraction truncates
+    from kernel.type import NatType, IntType
+    for Ty in (NatType, IntType):
+        M = lambda v: Number(Ty, v)
+        for a in range(4):
+            for b in range(4):
+                for c in range(3):
+                    for t, tv, zv in ((M(a) - M(b) + M(c), max(a - b, 0) + c, a - b + c), ((M(a) - M(b)) * M(c), max(a - b, 0) * c, (a - b) * c),
+                                      (M(a) - (M(b) - M(c)), max(a - max(b - c, 0), 0), a - (b - c))):
+                        for v in sorted({tv, max(zv, 0)}):
+                            goals += [([], Eq(t, M(v))), ([], Not(Eq(t, M(v)))), ([], t > M(v)), ([], t <= M(v))]
+    return goals
+
+
 def bridge_sympy(hyps, goal):
     from prover import sympywrapper
     from kernel.thm import Thm
@@ -282,6 +325,9 @@ def units(tier, seed):
     k = 600 if tier == 'quick' else 6000
     for lo in range(0, k, 50):
         us.append(('sympy', seed, lo, 50))
+    ne = len(sympy_endpoint_goals())
+    for lo in range(0, ne, 30):
+        us.append(('sympyE', lo, lo + 30))
     us.append(('flags',))
     random.Random(seed).shuffle(us)
     return us
@@ -309,6 +355,12 @@ def run_unit(u):
             if lo > 0 and j < len(gs) - n:
                 continue     # the fixed list is exercised by the first unit only
             check_sympy_goal(hyps, goal, out, {'part': 'sympy', 'seed': seed, 'lo': lo, 'n': n, 'j': j})
+        out['samples'].append({'sympy_goal': str(goal), 'premises': [str(h) for h in hyps]})
+    elif u[0] == 'sympyE':
+        gs = sympy_endpoint_goals()
+        for j in range(u[1], min(u[2], len(gs))):
+            hyps, goal = gs[j]
+            check_sympy_goal(hyps, goal, out, {'part': 'sympyE', 'j': j})
         out['samples'].append({'sympy_goal': str(goal), 'premises': [str(h) for h in hyps]})
     else:
         from prover import z3wrapper
@@ -351,8 +403,11 @@ def replay(c):
         rnd = random.Random('c06c-%s-%s' % (c['seed'], c['lo']))
         lab, hyps, goal = prop_combos(rnd, c['n'])[c['j']]
     else:
-        rnd = random.Random('c06s-%s-%s' % (c['seed'], c['lo']))
-        hyps, goal = sympy_goals(rnd, c['n'])[c['j']]
+        if part == 'sympyE':
+            hyps, goal = sympy_endpoint_goals()[c['j']]
+        else:
+            rnd = random.Random('c06s-%s-%s' % (c['seed'], c['lo']))
+            hyps, goal = sympy_goals(rnd, c['n'])[c['j']]
         th = bridge_sympy(hyps, goal)
         if th is None:
             return False, 'rejected now'
